@@ -22,7 +22,10 @@ use crate::{
         query_vamm_output_twap, query_vamm_state, query_vamm_underlying_price,
     },
     query::query_cumulative_premium_fraction,
-    state::{read_config, read_position, read_state, read_vamm_map, store_state, State},
+    state::{
+        read_config, read_last_removal_block, read_position, read_state, read_vamm_map,
+        store_state, State,
+    },
 };
 
 // reads position from storage but also handles the case where there is no
@@ -414,7 +417,11 @@ pub fn require_not_restriction_mode(
     let vamm_map = read_vamm_map(storage, vamm.clone())?;
     let position = read_position(storage, vamm, trader).unwrap();
 
-    if vamm_map.last_restriction_block == block_height && position.block_number == block_height {
+    // a position closed or liquidated in this block leaves no record, but was updated in it
+    let updated_in_block = position.block_number == block_height
+        || read_last_removal_block(storage, vamm, trader) == block_height;
+
+    if vamm_map.last_restriction_block == block_height && updated_in_block {
         return Err(StdError::generic_err("Only one action allowed"));
     }
 
